@@ -1034,6 +1034,12 @@ impl<K: AsRef<Key>> ServerSequence<K> {
         Target: Composer,
     {
         let variables = Variables::new(now, fudge, TsigRcode::NOERROR, None);
+
+        // Signing moves the sequence on to the next message. Remember where
+        // we were in case the TSIG record doesn’t fit and the message isn’t
+        // going to be sent.
+        let saved = (self.context.context.clone(), self.first);
+
         let mac = if self.first {
             self.first = false;
             self.context
@@ -1049,7 +1055,11 @@ impl<K: AsRef<Key>> ServerSequence<K> {
         // after truncation.
         let mac = self.key().signature_slice(&mac);
         self.context.apply_signature(mac);
-        self.key().complete_message(message, &variables, mac)
+        let res = self.key().complete_message(message, &variables, mac);
+        if res.is_err() {
+            (self.context.context, self.first) = saved;
+        }
+        res
     }
 
     /// Returns a reference to the transaction’s key.
